@@ -170,7 +170,7 @@ impl StreamModel {
     /// Run `ev` under the oracle as part of a scripted prefix.
     fn script(&self, env: &mut Env, s: &mut SS, ev: SEv) {
         if let Err(f) = self.apply(env, s, ev) {
-            panic!("oracle failed inside a scripted prefix ({ev:?}): [{}] {}", f.key, f.msg);
+            engine::prefix_fail(Fail::new(&f.key, format!("inside the scripted prefix of the start state, at {ev:?}: {}", f.msg)));
         }
     }
 
